@@ -48,14 +48,18 @@ typedef struct { ABTI_sched s; char pad[RUP(sizeof(ABTI_sched)) - sizeof(ABTI_sc
 _Static_assert(RUP(sizeof(ABTI_pool)) != RUP(sizeof(ABTI_sched)) && RUP(sizeof(ABTI_pool)) != RUP(sizeof(ABTI_pool_user_def)) && RUP(sizeof(ABTI_sched)) != RUP(sizeof(ABTI_pool_user_def)), "request sizes identify the table-carrying types");
 int posix_memalign(void **p, size_t al, size_t sz)
 {
-    if (vr_nalloc++ == vr_fail_at) { vr_failed = 1; return ENOMEM; }
+    /* (the block is allocated and stored through p on BOTH outcomes and released again on the failing one: the pointer the caller
+     * holds then does not depend on the symbolic failure position -- a value merged from "uninitialised" and "the block" loses
+     * the constants again; a caller that used the pointer after a failure would touch a freed object, which cbmc reports) */
     void *q;
     if (sz == RUP(sizeof(ABTI_pool))) q = malloc(sizeof(ABTI_pool));
     else if (sz == RUP(sizeof(ABTI_sched))) q = malloc(sizeof(blk_sched));
     else if (sz == RUP(sizeof(ABTI_pool_user_def))) q = malloc(sizeof(ABTI_pool_user_def));
     else q = malloc(sz);
     __CPROVER_assume(q != NULL);
-    vr_live++; *p = q; return 0;
+    *p = q;
+    if (vr_nalloc++ == vr_fail_at) { vr_failed = 1; free(q); return ENOMEM; }
+    vr_live++; return 0;
 }
 void vr_free(void *p) { if (p) { vr_live--; free(p); } }
 int pthread_mutex_init(pthread_mutex_t *m, const pthread_mutexattr_t *a) { return 0; }
@@ -185,20 +189,26 @@ int main(void)
     VR_ASSERT(vr_live == live0 && given_refs() == refs0, "create + free leaves nothing behind and gives the caller's pool back");
 #endif
     int live_ok = vr_live, refs_ok = given_refs();
-    /* now the k-th request of a second, identical call fails */
-    int k = nondet_int(); VR_ASSUME(k >= 0 && k < nreq);
-    vr_nalloc = 0; vr_fail_at = k; vr_failed = 0;
-    T h = (T)SENT; r = CREATE(&h);
-    VR_ASSERT(vr_failed, "the injected failure was reached");
-    VR_ASSERT(r != ABT_SUCCESS, NAME ": an allocation failure is reported as an error");
-    VR_ASSERT(vr_live == live_ok, NAME ": nothing stays allocated after the failed call");
-    VR_ASSERT(h == NULLH || h == (T)SENT, NAME ": output handle is the NULL handle or untouched (never dangling)");
+    /* now the k-th request of a further, identical call fails, for EVERY k (enumerated by an unrolled loop, not chosen by the
+     * solver: with a symbolic k every pointer returned by an allocation becomes "the block, or garbage if it failed" after the
+     * allocator returns, the function tables read through it stop being constants, and the indirect calls fan out -- no verdict) */
+    for (int k = 0; k < nreq; k++) {
+        vr_nalloc = 0; vr_fail_at = k; vr_failed = 0;
+        T h = (T)SENT; r = CREATE(&h);
+        VR_ASSERT(vr_failed, "the injected failure was reached");
+        VR_ASSERT(r != ABT_SUCCESS, NAME ": an allocation failure is reported as an error");
+        VR_ASSERT(vr_live == live_ok, NAME ": nothing stays allocated after the failed call");
+        VR_ASSERT(h == NULLH || h == (T)SENT, NAME ": output handle is the NULL handle or untouched (never dangling)");
 #ifdef HAS_GIVEN
-    VR_ASSERT(given_refs() == refs_ok, NAME ": the pool the caller passed in keeps its reference count (the failed scheduler does not hold it)");
-    { ABT_bool e = ABT_FALSE; int rr = ABT_pool_is_empty(given, &e); VR_ASSERT(rr == ABT_SUCCESS && e == ABT_TRUE, "the caller's pool is still usable"); }
+        VR_ASSERT(given_refs() == refs_ok, NAME ": the pool the caller passed in keeps its reference count (the failed scheduler does not hold it)");
+        { ABT_bool e = ABT_FALSE; int rr = ABT_pool_is_empty(given, &e); VR_ASSERT(rr == ABT_SUCCESS && e == ABT_TRUE, "the caller's pool is still usable"); }
 #endif
-    if (k == nreq - 1 && nreq > 1) VR_WITNESS("the LAST allocation of the call failed: earlier ones had to be rolled back");
-    if (k == 0) VR_WITNESS("the first allocation failed");
+#if WHICH != 5
+        if (k == nreq - 1 && nreq > 1) VR_WITNESS("the LAST allocation of the call failed: earlier ones had to be rolled back");
+#endif
+        if (k == 0) VR_WITNESS("the first allocation failed");
+    }
+    T h = (T)SENT;
     /* retry without failure, then release everything */
     vr_fail_at = -1; vr_nalloc = 0;
     r = CREATE(&h);
